@@ -27,15 +27,40 @@ from joblib import Memory  # noqa: E402
 import c11funcs  # noqa: E402
 from vlib import yieldinj  # noqa: E402
 
+import logging  # noqa: E402
+
 errs = collections.Counter()
 witness = {}
 counts = collections.Counter()
 lock = threading.Lock()
 inj = yieldinj.Injector([jm, jsb, jd, jbp], 0, p_yield=cfg["p_yield"], p_sleep=cfg["p_sleep"]).__enter__()
 devnull = open(os.devnull, "w")
+ROUND = [None]
+
+
+class LoadFailures(logging.Handler):
+    """joblib recovers from ANY exception while loading a cached result (it logs it and recomputes).  An entry removed by a
+    concurrent clear / eviction makes the load fail with FileNotFoundError / KeyError - but a result file whose CONTENT cannot
+    be read (truncated, mixed, not a pickle) was visible under its final name without being one complete result."""
+
+    def emit(self, record):
+        msg = record.getMessage()
+        if "Exception while loading results" not in msg:
+            return
+        last = [ln for ln in msg.strip().splitlines() if ln.strip()][-1].strip()
+        etype = last.split(":")[0].split(".")[-1]
+        with lock:
+            counts["loads_joblib_recovered_from:" + etype] += 1
+            if etype not in ("FileNotFoundError", "KeyError", "NotADirectoryError"):
+                errs["reader-saw-unreadable-result-file:" + etype] += 1
+                witness.setdefault("reader-saw-unreadable-result-file:" + etype, dict(error=last[:200], round=ROUND[0], tail=msg[-600:]))
+
+
+logging.getLogger().addHandler(LoadFailures())
 for rnd in range(cfg["rounds"]):
     rng = random.Random(cfg["seed"] * 1009 + rnd)
     inj.reseed(cfg["seed"] * 1009 + rnd)
+    ROUND[0] = rnd
     d = tempfile.mkdtemp(prefix="c11t-", dir=cfg["scratch"])
     kw = dict(verbose=0, compress=rng.choice([False, False, True]))
     if not kw["compress"] and rng.random() < 0.25:
@@ -104,8 +129,13 @@ for rnd in range(cfg["rounds"]):
 
     so, se = sys.stdout, sys.stderr
     sys.stdout = sys.stderr = devnull     # joblib prints a traceback for each load it recovers from
-    ts = [threading.Thread(target=caller, args=(i, random.Random(rng.random()))) for i in range(ncallers)]
-    ds = [threading.Thread(target=disturber, args=(k, random.Random(rng.random()))) for k in disturbers]
+    # in a third of the rounds all threads carry ONE explicit name (Thread(name="worker") started several times): a name
+    # identifies nothing
+    same_name = rnd % 3 == 1
+    if same_name:
+        counts["rounds_with_identically_named_threads"] += 1
+    ts = [threading.Thread(target=caller, args=(i, random.Random(rng.random())), **(dict(name="worker") if same_name else {})) for i in range(ncallers)]
+    ds = [threading.Thread(target=disturber, args=(k, random.Random(rng.random())), **(dict(name="worker") if same_name else {})) for k in disturbers]
     for t in ts + ds:
         t.start()
     for t in ts:
@@ -113,6 +143,20 @@ for rnd in range(cfg["rounds"]):
     stop.set()
     for t in ds:
         t.join()
+    # "concurrent writers of one entry leave one complete result, never a mixture": every result file left under its final
+    # name is read back (a mixture that does not even unpickle would otherwise be recomputed silently by the next call)
+    for dp, _, fns in os.walk(d):
+        if "output.pkl" in fns:
+            counts["result_files_read_back"] += 1
+            try:
+                v = joblib.load(os.path.join(dp, "output.pkl"))
+                ok = c11funcs.valid(list(v))
+                why = str(v)[:120]
+            except Exception as e:  # noqa
+                ok, why = False, f"{type(e).__name__}: {e}"[:200]
+            if not ok:
+                errs["result-file-not-one-complete-result"] += 1
+                witness.setdefault("result-file-not-one-complete-result", dict(file=os.path.relpath(dp, d), why=why, round=rnd, disturbers=disturbers, kw=str(kw), same_name=same_name))
     sys.stdout, sys.stderr = so, se
     counts["rounds"] += 1
     shutil.rmtree(d, ignore_errors=True)
